@@ -140,10 +140,12 @@ def cmd_run(a):
                                        {"minimise_steps": steps, "original_ops": len(scn.get("ops", [])) or None})
             rp = engine.replay_in_fresh_process(path, ns.repo_root)
             if rp.get("fingerprint") != v2["fingerprint"] or rp.get("digest") != res.digest():
-                if rp.get("digest") == res.digest() and rp.get("fingerprint") is None:
-                    # the replay executed the very same event log, only the violation did not recur: what the tree
-                    # returned depended on process state outside the scenario (e.g. memory addresses recycled by
-                    # the allocator).  Try the next violating run of this batch before giving up.
+                if not xc["mismatches"]:
+                    # The simulator itself is deterministic on this tree (the batch's cross-check in a fresh
+                    # interpreter found no mismatch), the violation was observed and recorded, yet this scenario
+                    # replayed alone does not show it (again): what the tree returned depended on process state
+                    # outside the scenario (e.g. memory addresses recycled by the allocator; the event log may then
+                    # differ as well, because the stale hit lands elsewhere).  Try the next violating run.
                     unreproduced.append((path, v2))
                     continue
                 print(f"HARNESS-ERROR: replay of {path} did not reproduce: {rp}", flush=True)
@@ -161,8 +163,9 @@ def cmd_run(a):
                 nobs = sum(1 for _k, _s, _v in out["violations"] if _v["fingerprint"] == fp)
                 print(f"VIOLATION property={a.prop} replay={path}", flush=True)
                 print(f"  clause={v2['fingerprint']} observed in {nobs} runs of this batch; a single-scenario replay in a fresh "
-                      f"interpreter executes the same event log without the violation ({len(unreproduced)} scenarios tried): the "
-                      f"tree's result depends on process state outside the scenario (allocation history / object addresses)", flush=True)
+                      f"interpreter does not show it ({len(unreproduced)} scenarios tried) while the simulator's own determinism "
+                      f"cross-check of this batch is clean: the tree's result depends on process state outside the scenario "
+                      f"(allocation history / object addresses)", flush=True)
                 print(f"  detail={json.dumps(v2.get('detail'), default=str)[:400]}", flush=True)
                 replays.append(path)
                 exit_code = 1
